@@ -109,6 +109,40 @@ func listing(dir string) [][]interface{} {
 	return out
 }
 
+// snapshotDir: name -> content of every stored file (CURRENT*, MANIFEST-*, tables, journals); LOCK and LOG belong to the
+// storage itself.
+func snapshotDir(dir string) map[string]string {
+	m := map[string]string{}
+	ents, _ := os.ReadDir(dir)
+	for _, e := range ents {
+		if e.Name() == "LOCK" || e.Name() == "LOG" || e.Name() == "LOG.old" {
+			continue
+		}
+		b, _ := os.ReadFile(filepath.Join(dir, e.Name()))
+		m[e.Name()] = string(b)
+	}
+	return m
+}
+
+// diffDir lists what a read-only open created, deleted or modified.
+func diffDir(a, b map[string]string) []string {
+	out := []string{}
+	for n, c := range a {
+		if c2, ok := b[n]; !ok {
+			out = append(out, "deleted "+n)
+		} else if c2 != c {
+			out = append(out, "modified "+n)
+		}
+	}
+	for n := range b {
+		if _, ok := a[n]; !ok {
+			out = append(out, "created "+n)
+		}
+	}
+	sort.Strings(out)
+	return out
+}
+
 func getMeta(dir string, ro bool) (int, string) {
 	st, err := storage.OpenFile(dir, ro)
 	if err != nil {
@@ -155,9 +189,12 @@ func main() {
 			os.Mkdir(d2, 0755)
 			materialise(d1, &im)
 			materialise(d2, &im)
+			before := snapshotDir(d1)
 			g1, e1 := getMeta(d1, true)
+			roChanged := diffDir(before, snapshotDir(d1))
 			g2, e2 := getMeta(d2, false)
-			out, _ := json.Marshal(map[string]interface{}{"i": i, "ro": g1, "roerr": e1, "rw": g2, "rwerr": e2, "after": listing(d2)})
+			out, _ := json.Marshal(map[string]interface{}{"i": i, "ro": g1, "roerr": e1, "rw": g2, "rwerr": e2, "after": listing(d2),
+				"ro_changed": roChanged})
 			fmt.Println(string(out))
 			os.RemoveAll(d1)
 			os.RemoveAll(d2)
